@@ -1,5 +1,5 @@
 (** * Proofs about Models/Temps.v (property C08) *)
-From Coq Require Import PArith List Bool Lia.
+From Coq Require Import PArith List Bool Lia Setoid.
 Import ListNotations.
 From Cohdl Require Import Models.Temps.
 
@@ -69,3 +69,545 @@ Qed.
 
 Lemma boolcast_fixed_witness : def_before_use [] (cleanup_fixed boolcast_witness).
 Proof. apply dbu_b_iff. vm_compute. reflexivity. Qed.
+
+(** ** Soundness of the corrected search (fx = true) *)
+
+Arguments pmem : simpl never.
+Arguments premove : simpl never.
+Arguments pdiff : simpl never.
+Arguments pinter : simpl never.
+
+Lemma pmem_cons x r a : pmem x (r :: a) = Pos.eqb x r || pmem x a.
+Proof. reflexivity. Qed.
+
+Lemma pmem_app x a b : pmem x (a ++ b) = pmem x a || pmem x b.
+Proof. unfold pmem. apply existsb_app. Qed.
+
+Lemma pmem_pinter x a b : pmem x (pinter a b) = pmem x a && pmem x b.
+Proof.
+  apply Bool.eq_iff_eq_true. rewrite andb_true_iff, !pmem_In. unfold pinter.
+  rewrite filter_In, pmem_In. tauto.
+Qed.
+
+Lemma pmem_pdiff x a b : pmem x (pdiff a b) = pmem x a && negb (pmem x b).
+Proof.
+  apply Bool.eq_iff_eq_true. unfold pdiff. rewrite andb_true_iff, pmem_In, filter_In, pmem_In. tauto.
+Qed.
+
+Lemma pmem_premove x r a : pmem x (premove r a) = pmem x a && negb (Pos.eqb x r).
+Proof.
+  apply Bool.eq_iff_eq_true. unfold premove. rewrite andb_true_iff, pmem_In, filter_In, pmem_In. tauto.
+Qed.
+
+Lemma rbind_ok {A B} (r : R A) (f : A -> R B) y : rbind r f = ROk y -> exists a, r = ROk a /\ f a = ROk y.
+Proof. destruct r; cbn; [eauto|discriminate]. Qed.
+
+Section Sound.
+  Variable MU : list positive.
+
+  Definition Inv (D : list positive) (x : st) : Prop :=
+    forall r, pmem r x.(wr) = true -> pmem r MU = false -> pmem r x.(inv) = true \/ pmem r D = true.
+
+  Definition FrameI (x y : st) : Prop :=
+    forall r, pmem r y.(wr) = true -> pmem r MU = false ->
+      (pmem r x.(wr) = true /\ pmem r x.(inv) = false) \/ pmem r y.(inv) = true.
+
+  Definition Frame (x y : st) (L : list positive) : Prop :=
+    forall r, pmem r y.(wr) = true -> pmem r MU = false ->
+      (pmem r x.(wr) = true /\ pmem r x.(inv) = false) \/ pmem r y.(inv) = true \/ pmem r L = true.
+
+  Fixpoint after (D : list positive) (p : list acc) : list positive :=
+    match p with
+    | [] => D
+    | AW (OTemp r) :: q => after (r :: D) q
+    | _ :: q => after D q
+    end.
+
+  Lemma after_app D p q : after D (p ++ q) = after (after D p) q.
+  Proof. revert D. induction p as [|[[r|]|[r|]] p IH]; intros D; cbn; auto. Qed.
+
+  Lemma after_mono r p : forall D, pmem r D = true -> pmem r (after D p) = true.
+  Proof.
+    induction p as [|[[s|]|[s|]] p IH]; intros D H; cbn; auto.
+    apply IH. rewrite pmem_cons, H. apply orb_true_r.
+  Qed.
+
+  Lemma after_reads D l : after D (map AR l) = D.
+  Proof. induction l as [|[r|] l IH]; cbn; auto. Qed.
+
+  Lemma ok_from_app p q : forall D, ok_from MU D (p ++ q) = ok_from MU D p && ok_from MU (after D p) q.
+  Proof.
+    induction p as [|[[r|]|[r|]] p IH]; intros D; cbn; auto.
+    rewrite IH. rewrite andb_assoc. reflexivity.
+  Qed.
+
+  Lemma FrameI_refl x : FrameI x x.
+  Proof. intros r H _. destruct (pmem r (inv x)) eqn:E; [right; auto|left; auto]. Qed.
+
+  Lemma FrameI_trans x y z : FrameI x y -> FrameI y z -> FrameI x z.
+  Proof.
+    intros H1 H2 r Hr Hm. destruct (H2 r Hr Hm) as [[Hw Hi]|Hi]; [|right; assumption].
+    destruct (H1 r Hw Hm) as [G|G]; [left; assumption|congruence].
+  Qed.
+
+  Lemma Frame_trans x y z L1 L2 :
+    (forall r, pmem r L1 = true -> pmem r L2 = true) -> Frame x y L1 -> Frame y z L2 -> Frame x z L2.
+  Proof.
+    intros Hs H1 H2 r Hr Hm. destruct (H2 r Hr Hm) as [[Hw Hi]|Hi]; [|right; assumption].
+    destruct (H1 r Hw Hm) as [G|[G|G]]; [left; assumption|congruence|right; right; auto].
+  Qed.
+
+  Lemma Frame_add_inv x y L : Frame x y L -> FrameI x (add_inv L y).
+  Proof.
+    intros H r Hr Hm. cbn in Hr. destruct (H r Hr Hm) as [G|[G|G]]; [left; assumption| |];
+      right; cbn; rewrite pmem_app, G; [apply orb_true_r|reflexivity].
+  Qed.
+
+  Lemma Inv_FrameI D x y : Inv D x -> FrameI x y -> Inv D y.
+  Proof.
+    intros HI HF r Hr Hm. destruct (HF r Hr Hm) as [[Hw Hi]|Hi]; [|left; assumption].
+    destruct (HI r Hw Hm) as [G|G]; [congruence|right; assumption].
+  Qed.
+
+  Lemma Inv_sub_inv D x a : Inv D x -> (forall r, pmem r a = true -> pmem r D = true) -> Inv D (sub_inv a x).
+  Proof.
+    intros HI Ha r Hr Hm. cbn in *. destruct (HI r Hr Hm) as [G|G]; [|right; assumption].
+    destruct (pmem r a) eqn:E; [right; auto|left]. rewrite pmem_pdiff, G, E. reflexivity.
+  Qed.
+
+  Lemma FrameI_sub_inv x y a L : FrameI x y -> Frame x (sub_inv a y) (a ++ L).
+  Proof.
+    intros H r Hr Hm. cbn in Hr. destruct (H r Hr Hm) as [G|G]; [left; assumption|right].
+    destruct (pmem r a) eqn:E.
+    - right. rewrite pmem_app, E. reflexivity.
+    - left. cbn. rewrite pmem_pdiff, G, E. reflexivity.
+  Qed.
+
+  Lemma Inv_mono D D' x : (forall r, pmem r D = true -> pmem r D' = true) -> Inv D x -> Inv D' x.
+  Proof. intros Hs H r Hr Hm. destruct (H r Hr Hm); [left|right]; auto. Qed.
+
+  (** reads *)
+  Definition read_ok (D : list positive) (o : obj) : Prop :=
+    match o with OTemp r => pmem r MU || pmem r D = true | OOther => True end.
+
+  Lemma check_read_ok o x x1 : check_read o x = ROk x1 ->
+    x1 = x /\ match o with OTemp r => pmem r x.(inv) = false /\ pmem r x.(wr) = true | OOther => True end.
+  Proof.
+    destruct o as [r|]; cbn; [|intros [= <-]; auto].
+    destruct (pmem r (inv x)); [discriminate|]. destruct (pmem r (wr x)); cbn; [|discriminate].
+    intros [= <-]. auto.
+  Qed.
+
+  Lemma check_read_inv D o x x1 : Inv D x -> check_read o x = ROk x1 -> x1 = x /\ read_ok D o.
+  Proof.
+    intros HI H. apply check_read_ok in H. destruct H as [-> H]. split; [reflexivity|].
+    destruct o as [r|]; cbn; [|exact I]. destruct H as [Hi Hw].
+    destruct (pmem r MU) eqn:Em; [reflexivity|]. cbn.
+    destruct (HI r Hw Em); congruence.
+  Qed.
+
+  Lemma check_reads_ok l : forall x x1, check_reads l x = ROk x1 ->
+    x1 = x /\ Forall (fun o => match o with OTemp r => pmem r x.(inv) = false /\ pmem r x.(wr) = true | OOther => True end) l.
+  Proof.
+    induction l as [|o l IH]; cbn; intros x x1 H.
+    - injection H as <-. auto.
+    - apply rbind_ok in H. destruct H as [x2 [H1 H2]]. apply check_read_ok in H1. destruct H1 as [-> H1].
+      apply IH in H2. destruct H2 as [-> H2]. split; [reflexivity|constructor; assumption].
+  Qed.
+
+  Lemma ok_from_reads D l : Forall (read_ok D) l -> forall q, ok_from MU D (map AR l ++ q) = ok_from MU D q.
+  Proof.
+    induction 1 as [|o l Ho _ IH]; intros q; cbn; [reflexivity|].
+    destruct o as [r|]; cbn in *; [rewrite Ho|]; apply IH.
+  Qed.
+
+  (** *** part A: monotonicity and frame (independent of the paths) *)
+
+  Definition A_res (x : st) (loc : list positive) (x' : st) (loc' : list positive) : Prop :=
+    (forall r, pmem r loc = true -> pmem r loc' = true) /\ Frame x x' loc'.
+
+  Lemma do_def_frame o x loc x' loc' :
+    do_def MU o (do_write o x) loc = (x', loc') -> A_res x loc x' loc'.
+  Proof.
+    destruct o as [r|]; cbn.
+    - destruct (pmem r MU) eqn:Em; intros [= <- <-]; split; try (intros; assumption).
+      + intros y Hy Hm. cbn in Hy. rewrite pmem_cons in Hy. destruct (Pos.eqb y r) eqn:E; cbn in Hy.
+        * apply Pos.eqb_eq in E. subst. congruence.
+        * destruct (pmem y (inv x)) eqn:Ei; [right; left; auto|left; auto].
+      + intros y H. rewrite pmem_cons, H. apply orb_true_r.
+      + intros y Hy Hm. cbn in Hy. rewrite pmem_cons in Hy. destruct (Pos.eqb y r) eqn:E; cbn in Hy.
+        * right. right. rewrite pmem_cons, E. reflexivity.
+        * destruct (pmem y (inv x)) eqn:Ei; [|left; auto].
+          right. left. cbn. rewrite pmem_premove, Ei, E. reflexivity.
+    - intros [= <- <-]. split; [auto|]. intros y Hy _.
+      destruct (pmem y (inv x)) eqn:Ei; [right; left; auto|left; auto].
+  Qed.
+
+  Lemma A_res_refl x loc : A_res x loc x loc.
+  Proof.
+    split; [auto|]. intros y Hy _. destruct (pmem y (inv x)) eqn:Ei; [right; left; auto|left; auto].
+  Qed.
+
+  Definition A_stmt (s : stmt) : Prop :=
+    forall x loc x' loc', search_stmt true MU s x loc = ROk (x', loc') -> A_res x loc x' loc'.
+  Definition A_block (b : block) : Prop :=
+    forall x loc x' loc', search_block true MU b x loc = ROk (x', loc') -> A_res x loc x' loc'.
+  Definition A_brs (brs : branches) : Prop :=
+    forall x c x' c', search_brs true MU brs x c = ROk (x', c') ->
+      FrameI x x' /\
+      (forall a' r, fst c' = Some a' -> pmem r a' = true -> forall a, fst c = Some a -> pmem r a = true).
+
+  Lemma A_block_nil_loc b : A_block b -> forall x x' L, search_block true MU b x [] = ROk (x', L) ->
+    FrameI x (add_inv L x').
+  Proof. intros H x x' L E. apply Frame_add_inv. apply (H x [] x' L E). Qed.
+
+  Fixpoint A_stmt_pf (s : stmt) {struct s} : A_stmt s
+  with A_block_pf (b : block) {struct b} : A_block b
+  with A_brs_pf (brs : branches) {struct brs} : A_brs brs.
+  Proof.
+    - destruct s as [c reads result|target source|reads|test body orelse|b|value brs hasdef default];
+        unfold A_stmt; intros x loc x' loc' H; cbn [search_stmt] in H.
+      + apply rbind_ok in H. destruct H as [x1 [H1 H2]]. apply check_reads_ok in H1. destruct H1 as [-> _].
+        injection H2 as H2. exact (do_def_frame _ _ _ _ _ H2).
+      + apply rbind_ok in H. destruct H as [x1 [H1 H2]]. apply check_reads_ok in H1. destruct H1 as [-> _].
+        injection H2 as H2. exact (do_def_frame _ _ _ _ _ H2).
+      + apply rbind_ok in H. destruct H as [x1 [H1 H2]]. apply check_reads_ok in H1. destruct H1 as [-> _].
+        injection H2 as <- <-. apply A_res_refl.
+      + apply rbind_ok in H. destruct H as [x1 [H1 H]]. apply check_read_ok in H1. destruct H1 as [-> _].
+        apply rbind_ok in H. destruct H as [[xb Lb] [Hb H]].
+        apply rbind_ok in H. destruct H as [[xe Le] [He H]]. cbn [fst snd] in *.
+        injection H as <- <-.
+        pose proof (A_block_nil_loc body (A_block_pf body) _ _ _ Hb) as Fb.
+        pose proof (A_block_nil_loc orelse (A_block_pf orelse) _ _ _ He) as Fe.
+        split.
+        * intros r Hr. rewrite pmem_app, Hr. apply orb_true_r.
+        * apply FrameI_sub_inv. eapply FrameI_trans; eassumption.
+      + apply rbind_ok in H. destruct H as [[xb Lb] [Hb H]]. cbn [fst snd] in *. injection H as <- <-.
+        destruct (A_block_pf b _ _ _ _ Hb) as [_ F]. split.
+        * intros r Hr. rewrite pmem_app, Hr. apply orb_true_r.
+        * intros r Hr Hm. destruct (F r Hr Hm) as [G|[G|G]]; [left; assumption|right; left; assumption|].
+          right. right. rewrite pmem_app, G. reflexivity.
+      + apply rbind_ok in H. destruct H as [x1 [H1 H]]. apply check_read_ok in H1. destruct H1 as [-> _].
+        apply rbind_ok in H. destruct H as [[x2 [always last]] [Hl H]].
+        destruct (A_brs_pf brs _ _ _ _ Hl) as [Fl _].
+        destruct hasdef.
+        * apply rbind_ok in H. destruct H as [[xd Ld] [Hd H]]. cbn [fst snd] in *. injection H as <- <-.
+          pose proof (A_block_nil_loc default (A_block_pf default) _ _ _ Hd) as Fd.
+          split.
+          -- intros r Hr. rewrite pmem_app, Hr. apply orb_true_r.
+          -- apply FrameI_sub_inv. eapply FrameI_trans; eassumption.
+        * injection H as <- <-. split; [auto|].
+          intros r Hr Hm. destruct (Fl r Hr Hm) as [G|G]; [left; assumption|right; left; assumption].
+    - destruct b as [|s r]; unfold A_block; intros x loc x' loc' H; cbn [search_block] in H.
+      + injection H as <- <-. apply A_res_refl.
+      + apply rbind_ok in H. destruct H as [[x1 l1] [H1 H2]]. cbn [fst snd] in H2.
+        destruct (A_stmt_pf s _ _ _ _ H1) as [M1 F1]. destruct (A_block_pf r _ _ _ _ H2) as [M2 F2].
+        split; [auto|]. eapply Frame_trans; eassumption.
+    - destruct brs as [|cond code r]; unfold A_brs; intros x c x' c' H; cbn [search_brs] in H.
+      + injection H as <- <-. split; [apply FrameI_refl|]. intros a' y E Hy a E2. congruence.
+      + apply rbind_ok in H. destruct H as [x1 [H1 H]]. apply check_read_ok in H1. destruct H1 as [-> _].
+        apply rbind_ok in H. destruct H as [[xb Lb] [Hb H]]. cbn [fst snd] in H.
+        pose proof (A_block_nil_loc code (A_block_pf code) _ _ _ Hb) as Fb.
+        destruct (A_brs_pf r _ _ _ _ H) as [Fr Sr]. split; [eapply FrameI_trans; eassumption|].
+        intros a' y E Hy a E2. cbn [fst] in Sr. specialize (Sr a' y E Hy _ eq_refl).
+        rewrite E2 in Sr. rewrite pmem_pinter in Sr. apply andb_true_iff in Sr. tauto.
+  Qed.
+
+  (** after a branch: the new [always] is contained in the branch's local set *)
+  Lemma A_brs_always brs x c x' c' Lb a0 :
+    search_brs true MU brs x (Some a0, c) = ROk (x', c') ->
+    (forall r, pmem r a0 = true -> pmem r Lb = true) ->
+    forall a' r, fst c' = Some a' -> pmem r a' = true -> pmem r Lb = true.
+  Proof.
+    intros H Hs a' r E Hr. destruct (A_brs_pf brs _ _ _ _ H) as [_ S].
+    apply Hs. exact (S a' r E Hr a0 eq_refl).
+  Qed.
+
+  Lemma search_brs_some : forall brs x a l x' c',
+    search_brs true MU brs x (Some a, l) = ROk (x', c') -> exists a', fst c' = Some a'.
+  Proof.
+    induction brs as [|cond code r IH]; intros x a l x' c' H; cbn [search_brs] in H.
+    - injection H as <- <-. exists a. reflexivity.
+    - apply rbind_ok in H. destruct H as [x1 [_ H]]. apply rbind_ok in H. destruct H as [rb [_ H]].
+      cbn [fst] in H. eapply IH. exact H.
+  Qed.
+
+  Lemma search_brs_cons_some : forall brs x c x' c',
+    search_brs true MU brs x c = ROk (x', c') -> paths_brs brs <> [] -> exists a', fst c' = Some a'.
+  Proof.
+    intros [|cond code r] x c x' c' H Hne; [exfalso; apply Hne; reflexivity|]. cbn [search_brs] in H.
+    apply rbind_ok in H. destruct H as [x1 [_ H]]. apply rbind_ok in H. destruct H as [rb [_ H]].
+    eapply search_brs_some. exact H.
+  Qed.
+
+  (** *** part B: every path is checked *)
+
+  Definition Post (D : list positive) (x' : st) (loc loc' : list positive) (ps : list (list acc)) : Prop :=
+    forall p, In p ps ->
+      ok_from MU D p = true /\ Inv (after D p) x' /\
+      (forall r, pmem r loc' = true -> pmem r loc = true \/ pmem r (after D p) = true).
+
+  Definition B_stmt (s : stmt) : Prop :=
+    forall x loc x' loc' D, search_stmt true MU s x loc = ROk (x', loc') -> wf_stmt s = true -> Inv D x ->
+      Post D x' loc loc' (paths_stmt s).
+  Definition B_block (b : block) : Prop :=
+    forall x loc x' loc' D, search_block true MU b x loc = ROk (x', loc') -> wf_block b = true -> Inv D x ->
+      Post D x' loc loc' (paths_block b).
+  Definition B_brs (brs : branches) : Prop :=
+    forall x c x' c' D, search_brs true MU brs x c = ROk (x', c') -> wf_brs brs = true -> Inv D x ->
+      forall p, In p (paths_brs brs) ->
+        ok_from MU D p = true /\
+        exists xj, Inv (after D p) xj /\ FrameI xj x' /\
+          (forall a' r, fst c' = Some a' -> pmem r a' = true -> pmem r (after D p) = true).
+
+  Lemma reads_ok_of D x l :
+    Inv D x ->
+    Forall (fun o => match o with OTemp r => pmem r x.(inv) = false /\ pmem r x.(wr) = true | OOther => True end) l ->
+    Forall (read_ok D) l.
+  Proof.
+    intros HI H. induction H as [|o l Ho _ IH]; constructor; [|assumption].
+    destruct o as [r|]; cbn; [|exact I]. destruct Ho as [Hi Hw].
+    destruct (pmem r MU) eqn:Em; [reflexivity|]. cbn. destruct (HI r Hw Em); congruence.
+  Qed.
+
+  Lemma leaf_def D o x loc x' loc' :
+    Inv D x -> do_def MU o (do_write o x) loc = (x', loc') ->
+    Inv (after D [AW o]) x' /\ (forall r, pmem r loc' = true -> pmem r loc = true \/ pmem r (after D [AW o]) = true).
+  Proof.
+    intros HI. destruct o as [r|]; cbn.
+    - destruct (pmem r MU) eqn:Em; intros [= <- <-]; split.
+      + intros y Hy Hm. cbn in Hy. rewrite pmem_cons in Hy. destruct (Pos.eqb y r) eqn:E; cbn in Hy.
+        * right. rewrite pmem_cons, E. reflexivity.
+        * destruct (HI y Hy Hm) as [G|G]; [left; assumption|right]. rewrite pmem_cons, G. apply orb_true_r.
+      + auto.
+      + intros y Hy Hm. cbn in Hy. rewrite pmem_cons in Hy. destruct (Pos.eqb y r) eqn:E; cbn in Hy.
+        * right. rewrite pmem_cons, E. reflexivity.
+        * destruct (HI y Hy Hm) as [G|G]; [left|right].
+          -- cbn. rewrite pmem_premove, G, E. reflexivity.
+          -- rewrite pmem_cons, G. apply orb_true_r.
+      + intros y Hy. rewrite pmem_cons in Hy. apply orb_true_iff in Hy. destruct Hy as [Hy|Hy]; [right|left; assumption].
+        rewrite pmem_cons, Hy. reflexivity.
+    - intros [= <- <-]. split; [assumption|auto].
+  Qed.
+
+  Fixpoint B_stmt_pf (s : stmt) {struct s} : B_stmt s
+  with B_block_pf (b : block) {struct b} : B_block b
+  with B_brs_pf (brs : branches) {struct brs} : B_brs brs.
+  Proof.
+    - destruct s as [c reads result|target source|reads|test body orelse|b|value brs hasdef default];
+        unfold B_stmt; intros x loc x' loc' D H Hwf HI; cbn [search_stmt] in H; cbn [paths_stmt wf_stmt] in *.
+      + (* SExpr *)
+        apply rbind_ok in H. destruct H as [x1 [H1 H2]]. apply check_reads_ok in H1. destruct H1 as [-> Hr].
+        injection H2 as H2. intros p [<-|[]].
+        rewrite (ok_from_reads D reads (reads_ok_of D x reads HI Hr)).
+        rewrite after_app, after_reads.
+        destruct (leaf_def D result x loc x' loc' HI H2) as [G1 G2].
+        split; [destruct result as [r|]; reflexivity|]. split; assumption.
+      + (* SVarAssign *)
+        apply rbind_ok in H. destruct H as [x1 [H1 H2]]. apply check_reads_ok in H1. destruct H1 as [-> Hr].
+        injection H2 as H2. intros p [<-|[]].
+        assert (Hro : Forall (read_ok D) source).
+        { destruct target as [t|]; [|exact (reads_ok_of D x source HI Hr)].
+          cbn in Hwf. apply negb_true_iff in Hwf.
+          clear H2. induction Hr as [|o l Ho _ IH]; constructor.
+          - destruct o as [r|]; cbn; [|exact I]. cbn in Ho. destruct Ho as [Hi Hw]. rewrite pmem_cons in Hw.
+            cbn in Hwf. apply orb_false_iff in Hwf. destruct Hwf as [Hne _]. cbn in Hne.
+            rewrite Pos.eqb_sym in Hne. rewrite Hne in Hw. cbn in Hw.
+            destruct (pmem r MU) eqn:Em; [reflexivity|]. cbn. destruct (HI r Hw Em); congruence.
+          - apply IH. cbn in Hwf. apply orb_false_iff in Hwf. tauto. }
+        rewrite (ok_from_reads D source Hro). rewrite after_app, after_reads.
+        destruct (leaf_def D target x loc x' loc' HI H2) as [G1 G2].
+        split; [destruct target as [r|]; reflexivity|]. split; assumption.
+      + (* SOther *)
+        apply rbind_ok in H. destruct H as [x1 [H1 H2]]. apply check_reads_ok in H1. destruct H1 as [-> Hr].
+        injection H2 as <- <-. intros p [<-|[]].
+        rewrite <- (app_nil_r (map AR reads)).
+        rewrite (ok_from_reads D reads (reads_ok_of D x reads HI Hr)). rewrite after_app, after_reads.
+        split; [reflexivity|]. split; [assumption|auto].
+      + (* SIf *)
+        apply andb_true_iff in Hwf. destruct Hwf as [Wb We].
+        apply rbind_ok in H. destruct H as [x1 [H1 H]]. destruct (check_read_inv D _ _ _ HI H1) as [-> Rt].
+        apply rbind_ok in H. destruct H as [[xb Lb] [Hb H]].
+        apply rbind_ok in H. destruct H as [[xe Le] [He H]]. cbn [fst snd] in *.
+        injection H as <- <-.
+        pose proof (A_block_nil_loc body (A_block_pf body) _ _ _ Hb) as Fb.
+        pose proof (A_block_nil_loc orelse (A_block_pf orelse) _ _ _ He) as Fe.
+        pose proof (B_block_pf body _ _ _ _ D Hb Wb HI) as Pb.
+        pose proof (B_block_pf orelse _ _ _ _ D He We (Inv_FrameI D _ _ HI Fb)) as Pe.
+        intros p Hp. apply in_map_iff in Hp. destruct Hp as [q [<- Hq]].
+        assert (Hok : forall q', ok_from MU D (AR test :: q') = ok_from MU D q').
+        { intros q'. destruct test as [r|]; cbn in *; [rewrite Rt|]; reflexivity. }
+        rewrite Hok. assert (Haf : after D (AR test :: q) = after D q) by (destruct test; reflexivity).
+        rewrite Haf. apply in_app_or in Hq. destruct Hq as [Hq|Hq].
+        * destruct (Pb q Hq) as [O [I1 L1]]. split; [assumption|]. split.
+          -- apply Inv_sub_inv.
+             ++ apply Inv_FrameI with (x := add_inv Lb xb); [|assumption].
+                intros r Hr Hm. cbn in Hr. destruct (I1 r Hr Hm) as [G|G]; [left|right; assumption].
+                cbn. rewrite pmem_app, G. apply orb_true_r.
+             ++ intros r Hr. rewrite pmem_pinter in Hr. apply andb_true_iff in Hr. destruct Hr as [Hr _].
+                destruct (L1 r Hr) as [G|G]; [discriminate|assumption].
+          -- intros r Hr. rewrite pmem_app in Hr. apply orb_true_iff in Hr. destruct Hr as [Hr|Hr]; [right|left; assumption].
+             rewrite pmem_pinter in Hr. apply andb_true_iff in Hr. destruct Hr as [Hr _].
+             destruct (L1 r Hr) as [G|G]; [discriminate|assumption].
+        * destruct (Pe q Hq) as [O [I1 L1]]. split; [assumption|]. split.
+          -- apply Inv_sub_inv.
+             ++ intros r Hr Hm. cbn in Hr. destruct (I1 r Hr Hm) as [G|G]; [left|right; assumption].
+                cbn. rewrite pmem_app, G. apply orb_true_r.
+             ++ intros r Hr. rewrite pmem_pinter in Hr. apply andb_true_iff in Hr. destruct Hr as [_ Hr].
+                destruct (L1 r Hr) as [G|G]; [discriminate|assumption].
+          -- intros r Hr. rewrite pmem_app in Hr. apply orb_true_iff in Hr. destruct Hr as [Hr|Hr]; [right|left; assumption].
+             rewrite pmem_pinter in Hr. apply andb_true_iff in Hr. destruct Hr as [_ Hr].
+             destruct (L1 r Hr) as [G|G]; [discriminate|assumption].
+      + (* SBlock *)
+        apply rbind_ok in H. destruct H as [[xb Lb] [Hb H]]. cbn [fst snd] in *. injection H as <- <-.
+        pose proof (B_block_pf b _ _ _ _ D Hb Hwf HI) as Pb.
+        intros p Hp. destruct (Pb p Hp) as [O [I1 L1]]. split; [assumption|]. split; [assumption|].
+        intros r Hr. rewrite pmem_app in Hr. apply orb_true_iff in Hr. destruct Hr as [Hr|Hr]; [right|left; assumption].
+        destruct (L1 r Hr) as [G|G]; [discriminate|assumption].
+      + (* SCase *)
+        apply andb_true_iff in Hwf. destruct Hwf as [Wb Wd].
+        apply rbind_ok in H. destruct H as [x1 [H1 H]]. destruct (check_read_inv D _ _ _ HI H1) as [-> Rt].
+        apply rbind_ok in H. destruct H as [[x2 [always last]] [Hl H]].
+        destruct (A_brs_pf brs _ _ _ _ Hl) as [Fl _].
+        pose proof (B_brs_pf brs _ _ _ _ D Hl Wb HI) as Pl.
+        assert (Hok : forall q', ok_from MU D (AR value :: q') = ok_from MU D q').
+        { intros q'. destruct value as [r|]; cbn in *; [rewrite Rt|]; reflexivity. }
+        assert (Haf : forall q, after D (AR value :: q) = after D q) by (intros; destruct value; reflexivity).
+        destruct hasdef.
+        * apply rbind_ok in H. destruct H as [[xd Ld] [Hd H]]. cbn [fst snd] in *. injection H as <- <-.
+          pose proof (A_block_nil_loc default (A_block_pf default) _ _ _ Hd) as Fd.
+          pose proof (B_block_pf default _ _ _ _ D Hd Wd (Inv_FrameI D _ _ HI Fl)) as Pd.
+          set (a := match always with Some a => pinter a Ld | None => Ld end).
+          intros p Hp. apply in_map_iff in Hp. destruct Hp as [q [<- Hq]]. rewrite Hok, Haf.
+          apply in_app_or in Hq. destruct Hq as [Hq|Hq].
+          -- destruct (Pl q Hq) as [O [xj [I1 [F1 S1]]]]. split; [assumption|].
+             assert (Ha : forall r, pmem r a = true -> pmem r (after D q) = true).
+             { intros r Hr. unfold a in Hr. destruct always as [a0|].
+               - rewrite pmem_pinter in Hr. apply andb_true_iff in Hr. destruct Hr as [Hr _].
+                 exact (S1 a0 r eq_refl Hr).
+               - (* no branch was executed: there is no branch path *)
+                 exfalso. assert (Hne : paths_brs brs <> []) by (intros E0; rewrite E0 in Hq; contradiction).
+                 destruct (search_brs_cons_some _ _ _ _ _ Hl Hne) as [a' E']. discriminate. }
+             split.
+             ++ apply Inv_sub_inv; [|assumption].
+                apply Inv_FrameI with (x := xj); [assumption|]. eapply FrameI_trans; eassumption.
+             ++ intros r Hr. rewrite pmem_app in Hr. apply orb_true_iff in Hr.
+                destruct Hr as [Hr|Hr]; [right; auto|left; assumption].
+          -- destruct (Pd q Hq) as [O [I1 L1]]. split; [assumption|].
+             assert (Ha : forall r, pmem r a = true -> pmem r (after D q) = true).
+             { intros r Hr. assert (Hd' : pmem r Ld = true).
+               { unfold a in Hr. destruct always; [|assumption].
+                 rewrite pmem_pinter in Hr. apply andb_true_iff in Hr. tauto. }
+               destruct (L1 r Hd') as [G|G]; [discriminate|assumption]. }
+             split.
+             ++ apply Inv_sub_inv; [|assumption].
+                intros r Hr Hm. cbn in Hr. destruct (I1 r Hr Hm) as [G|G]; [left|right; assumption].
+                cbn. rewrite pmem_app, G. apply orb_true_r.
+             ++ intros r Hr. rewrite pmem_app in Hr. apply orb_true_iff in Hr.
+                destruct Hr as [Hr|Hr]; [right; auto|left; assumption].
+        * injection H as <- <-.
+          intros p Hp. apply in_map_iff in Hp. destruct Hp as [q [<- Hq]]. rewrite Hok, Haf.
+          apply in_app_or in Hq. destruct Hq as [Hq|Hq].
+          -- destruct (Pl q Hq) as [O [xj [I1 [F1 _]]]]. split; [assumption|]. split; [|auto].
+             apply Inv_FrameI with (x := xj); assumption.
+          -- destruct Hq as [<-|[]]. cbn. split; [reflexivity|]. split; [|auto].
+             apply Inv_FrameI with (x := x); assumption.
+    - destruct b as [|s r]; unfold B_block; intros x loc x' loc' D H Hwf HI; cbn [search_block] in H;
+        cbn [paths_block wf_block] in *.
+      + injection H as <- <-. intros p [<-|[]]. cbn. split; [reflexivity|]. split; [assumption|auto].
+      + apply andb_true_iff in Hwf. destruct Hwf as [Ws Wr].
+        apply rbind_ok in H. destruct H as [[x1 l1] [H1 H2]]. cbn [fst snd] in H2.
+        pose proof (B_stmt_pf s _ _ _ _ D H1 Ws HI) as Ps.
+        intros pq Hpq. apply in_flat_map in Hpq. destruct Hpq as [p [Hp Hpq]].
+        apply in_map_iff in Hpq. destruct Hpq as [q [<- Hq]].
+        destruct (Ps p Hp) as [O1 [I1 L1]].
+        pose proof (B_block_pf r _ _ _ _ (after D p) H2 Wr I1) as Pr.
+        destruct (Pr q Hq) as [O2 [I2 L2]].
+        rewrite ok_from_app, O1, O2, after_app. split; [reflexivity|]. split; [assumption|].
+        intros y Hy. destruct (L2 y Hy) as [G|G]; [|right; assumption].
+        destruct (L1 y G) as [G'|G']; [left; assumption|right]. apply after_mono. assumption.
+    - destruct brs as [|cond code r]; unfold B_brs; intros x c x' c' D H Hwf HI p Hp; cbn [search_brs] in H;
+        cbn [paths_brs wf_brs] in *; [contradiction|].
+      apply andb_true_iff in Hwf. destruct Hwf as [Wc Wr].
+      apply rbind_ok in H. destruct H as [x1 [H1 H]]. destruct (check_read_inv D _ _ _ HI H1) as [-> Rt].
+      apply rbind_ok in H. destruct H as [[xb Lb] [Hb H]]. cbn [fst snd] in H.
+      pose proof (A_block_nil_loc code (A_block_pf code) _ _ _ Hb) as Fb.
+      destruct (A_brs_pf r _ _ _ _ H) as [Fr Sr].
+      apply in_app_or in Hp. destruct Hp as [Hp|Hp].
+      + apply in_map_iff in Hp. destruct Hp as [q [<- Hq]].
+        destruct (B_block_pf code _ _ _ _ D Hb Wc HI q Hq) as [O [I1 L1]].
+        assert (Hok : ok_from MU D (AR cond :: q) = ok_from MU D q).
+        { destruct cond as [y|]; cbn in *; [rewrite Rt|]; reflexivity. }
+        assert (Haf : after D (AR cond :: q) = after D q) by (destruct cond; reflexivity).
+        rewrite Hok, Haf. split; [assumption|].
+        exists (add_inv Lb xb). split; [|split; [assumption|]].
+        * intros y Hy Hm. cbn in Hy. destruct (I1 y Hy Hm) as [G|G]; [left|right; assumption].
+          cbn. rewrite pmem_app, G. apply orb_true_r.
+        * intros a' y E Hy. cbn [fst] in Sr. specialize (Sr a' y E Hy _ eq_refl).
+          assert (Hb' : pmem y Lb = true).
+          { destruct (fst c); [|assumption]. rewrite pmem_pinter in Sr. apply andb_true_iff in Sr. tauto. }
+          destruct (L1 y Hb') as [G|G]; [discriminate|assumption].
+      + destruct (B_brs_pf r _ _ _ _ D H Wr (Inv_FrameI D _ _ HI Fb) p Hp) as [O [xj [I1 [F1 S1]]]].
+        split; [assumption|]. exists xj. split; [assumption|]. split; assumption.
+  Qed.
+
+  Theorem search_fixed_sound : forall t, wf_block t = true ->
+    search_invalid_fixed MU t = Accept -> def_before_use MU t.
+  Proof.
+    intros t Hwf H p Hp. unfold search_invalid_fixed, search_invalid_gen in H.
+    destruct (search_block true MU t {| inv := []; wr := [] |} []) as [[x' loc']|v] eqn:E; [|destruct v; discriminate].
+    assert (HI : Inv [] {| inv := []; wr := [] |}) by (intros r Hr; discriminate).
+    destruct (B_block_pf t _ _ _ _ [] E Hwf HI p Hp) as [O _]. exact O.
+  Qed.
+End Sound.
+
+(** ** cleanup_unused removes no write of a temporary that is read anywhere *)
+Lemma no_write_in_reads o l : ~ In (AW o) (map AR l).
+Proof. induction l as [|x l IH]; cbn; [tauto|]. intros [H|H]; [discriminate|auto]. Qed.
+
+Definition K_stmt (s : stmt) : Prop := forall used r, pmem r used = true ->
+  In (AW (OTemp r)) (lin_stmt s) -> In (AW (OTemp r)) (lin_stmt (cu_stmt used s)).
+Definition K_block (b : block) : Prop := forall used r, pmem r used = true ->
+  In (AW (OTemp r)) (lin_block b) -> In (AW (OTemp r)) (lin_block (cu_block used b)).
+Definition K_brs (b : branches) : Prop := forall used r, pmem r used = true ->
+  In (AW (OTemp r)) (lin_brs b) -> In (AW (OTemp r)) (lin_brs (cu_brs used b)).
+
+Fixpoint K_stmt_pf (s : stmt) {struct s} : K_stmt s
+with K_block_pf (b : block) {struct b} : K_block b
+with K_brs_pf (b : branches) {struct b} : K_brs b.
+Proof.
+  - destruct s as [c reads result|target source|reads|test body orelse|b|value brs hasdef default];
+      unfold K_stmt; intros used r Hu H; cbn [cu_stmt lin_stmt] in *.
+    + destruct (unused used result) eqn:E; [|assumption]. exfalso.
+      apply in_app_or in H. destruct H as [H|[H|[]]]; [exact (no_write_in_reads _ _ H)|].
+      injection H as ->. cbn in E. rewrite Hu in E. discriminate.
+    + destruct (unused used target) eqn:E; [|assumption]. exfalso.
+      destruct H as [H|H]; [|exact (no_write_in_reads _ _ H)].
+      injection H as ->. cbn in E. rewrite Hu in E. discriminate.
+    + assumption.
+    + destruct H as [H|H]; [discriminate|]. right. apply in_or_app. apply in_app_or in H.
+      destruct H as [H|H]; [left; apply K_block_pf|right; apply K_block_pf]; assumption.
+    + apply K_block_pf; assumption.
+    + apply in_or_app. apply in_app_or in H. destruct H as [H|H]; [left; apply K_brs_pf; assumption|right].
+      apply in_or_app. apply in_app_or in H. destruct H as [H|H]; [left|right; assumption].
+      destruct hasdef; [apply K_block_pf; assumption|assumption].
+  - destruct b as [|s r0]; unfold K_block; intros used r Hu H; cbn [cu_block lin_block] in *; [assumption|].
+    apply in_or_app. apply in_app_or in H.
+    destruct H as [H|H]; [left; apply K_stmt_pf|right; apply K_block_pf]; assumption.
+  - destruct b as [|cond code r0]; unfold K_brs; intros used r Hu H; cbn [cu_brs lin_brs] in *; [assumption|].
+    destruct H as [H|H]; [discriminate|]. right. apply in_or_app. apply in_app_or in H.
+    destruct H as [H|H]; [left; apply K_block_pf|right; apply K_brs_pf]; assumption.
+Qed.
+
+(** every temporary that is read somewhere in the context keeps all its writes *)
+Theorem cleanup_unused_keeps_needed_writes : forall t r,
+  In r (reads_of (lin_block t)) -> In (AW (OTemp r)) (lin_block t) ->
+  In (AW (OTemp r)) (lin_block (cleanup_unused t)).
+Proof.
+  intros t r Hr Hw. unfold cleanup_unused. apply K_block_pf; [|assumption]. apply pmem_In. assumption.
+Qed.
+
+Example cleanup_unused_nonvacuous :
+  let t := BCons (SExpr false [OOther] (OTemp 1)) (BCons (SExpr false [OOther] (OTemp 2)) (BCons (SOther [OTemp 1]) BNil)) in
+  temp_lin (cleanup_unused t) = [AW (OTemp 1); AR (OTemp 1)].
+Proof. vm_compute. reflexivity. Qed.
